@@ -420,3 +420,16 @@ func verifPointerDocs() []JsonNode {
 
 // verifNegZero is the number -0 (a Go constant cannot express it).
 func verifNegZero() JsonNode { return jsonNumber(math.Copysign(0, -1)) }
+
+// verifNumberEdgeDocs: see the v2 universe of the same name.
+func verifNumberEdgeDocs() []JsonNode {
+	nums := []float64{9223372036854775807, -9223372036854775808, 9007199254740993, 1e19, 18446744073709551615, 1e20, 1e21, 6.02214076e23,
+		1700000000, 1700000001, 1e15, 1e15 + 1, 0.1 + 0.2, 0.3, 1e-7, 123456789.125, -1e19, 4294967296}
+	var out []JsonNode
+	for _, f := range nums {
+		n := jsonNumber(f)
+		out = append(out, n, jsonObject{"id": n}, jsonArray{n}, jsonObject{"o": jsonObject{"id": n, "x": jsonNumber(1)}})
+	}
+	out = append(out, jsonObject{}, jsonArray{})
+	return out
+}
